@@ -75,6 +75,11 @@ type reservationCache struct {
 	reservationsOnNode map[string]map[types.UID]struct{} // all reservations on node
 	matchableOnNode    map[string]map[types.UID]struct{} // look up available reservations on node
 	allocatedOnNode    map[string]map[types.UID]struct{} // look up allocated available reservations on node
+	// orphanPods remembers the assigned pods delivered by the pod informer whose reservation the cache does not know
+	// (yet): the pod informer and the reservation informer deliver independently, so - in particular after a restart
+	// of the scheduler - a pod can be seen before the reservation it is assigned to. The pods are handed to the
+	// reservation as soon as it enters the cache. reservation uid -> pod uid -> pod; guarded by `lock`.
+	orphanPods map[types.UID]map[types.UID]*corev1.Pod
 	// preAllocatablePodsOnNode caches sorted pre-allocatable candidate pods per node
 	// Uses btree for automatic ordering by priority
 	preAllocatablePodsOnNode map[string]*preAllocatablePodCache
@@ -797,6 +802,11 @@ func (cache *reservationCache) updateReservation(newR *schedulingv1alpha1.Reserv
 	if rInfo == nil {
 		rInfo = frameworkext.NewReservationInfo(newR)
 		cache.reservationInfos[newR.UID] = rInfo
+		// the pods that were seen before their reservation hold it from now on
+		for _, pod := range cache.orphanPods[newR.UID] {
+			rInfo.AddAssignedPod(pod)
+		}
+		delete(cache.orphanPods, newR.UID)
 	} else {
 		rInfo.UpdateReservation(newR)
 	}
@@ -1062,7 +1072,20 @@ func (cache *reservationCache) updatePod(oldReservationUID, newReservationUID ty
 			}
 		}
 	}
+	if oldPod != nil {
+		cache.forgetOrphanPod(oldReservationUID, oldPod.UID)
+	}
 	newRInfo := cache.reservationInfos[newReservationUID]
+	if newRInfo == nil && newPod != nil && newReservationUID != "" {
+		// the reservation is not known (yet): remember the pod until the reservation informer delivers it
+		if cache.orphanPods == nil {
+			cache.orphanPods = map[types.UID]map[types.UID]*corev1.Pod{}
+		}
+		if cache.orphanPods[newReservationUID] == nil {
+			cache.orphanPods[newReservationUID] = map[types.UID]*corev1.Pod{}
+		}
+		cache.orphanPods[newReservationUID][newPod.UID] = newPod
+	}
 	if newRInfo != nil && newPod != nil {
 		newRInfo.AddAssignedPod(newPod)
 		// update allocated cache for new reservation
@@ -1078,6 +1101,16 @@ func (cache *reservationCache) updatePod(oldReservationUID, newReservationUID ty
 	}
 }
 
+// forgetOrphanPod drops a remembered pod (it is gone, terminated, unassigned or re-pointed). Caller MUST hold cache.lock.
+func (cache *reservationCache) forgetOrphanPod(reservationUID, podUID types.UID) {
+	if pods := cache.orphanPods[reservationUID]; pods != nil {
+		delete(pods, podUID)
+		if len(pods) == 0 {
+			delete(cache.orphanPods, reservationUID)
+		}
+	}
+}
+
 func (cache *reservationCache) deletePod(reservationUID types.UID, pod *corev1.Pod) {
 	cache.deletePods(reservationUID, []*corev1.Pod{pod})
 }
@@ -1086,6 +1119,9 @@ func (cache *reservationCache) deletePods(reservationUID types.UID, pods []*core
 	cache.lock.Lock()
 	defer cache.lock.Unlock()
 
+	for _, pod := range pods {
+		cache.forgetOrphanPod(reservationUID, pod.UID)
+	}
 	rInfo := cache.reservationInfos[reservationUID]
 	if rInfo != nil {
 		for _, pod := range pods {
